@@ -889,6 +889,14 @@ def fixed_scenarios():
     S.append(("obs-life", 3, [(2, 1)], [
         "obs 0 0 mk 2 3 1 obs 1 2 exec 2 { pfor 6 0 { work } } set 1 exec 0 { tg { run { work } run { work } } } spin 2 rm 2 obs 3 0 exec 0 { pfor 3 0 { work } }",
         "spin 1 exec 2 { tg { run { work } run { work } } } set 2 exec 0 { pfor 3 0 { work } }"]))
+    # a slow exit callback: while one thread is still inside on_scheduler_exit another one enters the arena; the two are never inside with one index
+    S.append(("obs-exit-window", 3, [(2, 2)], [
+        "obs 0 0 exec 0 { set 1 spin 2 }",
+        "spin 1 exec 0 { work } exec 0 { work } exec 0 { work }",
+        "spin 1 exec 0 { work } exec 0 { work } exec 0 { work } set 2"]))
+    S.append(("obs-exit-window-w", 3, [(3, 1)], [           # the same with workers coming and going
+        "obs 0 0 exec 0 { tg { run { work } run { work } run { work } } pfor 4 0 { work } }",
+        "exec 0 { work } exec 0 { tg { run { work } run { work } } } exec 0 { work }"]))
     S.append(("obs-during", 3, [(3, 1)], [
         "exec 0 { tg { run { obs 0 0 work } run { work } run { work obs 1 0 } pfor 4 0 { work } } } unobs 0 exec 0 { pfor 3 0 { work } }",
         "exec 0 { tg { run { work } run { work } } }"]))
